@@ -12,7 +12,8 @@ RULE = ('17 estimators x preprocessor kind {ndarray, nested list, counting calla
         'pair_score, predict, decision_function, score, calibrate_threshold). Differential oracle: estimator fed '
         'indices+preprocessor vs an identical estimator fed the formed arrays: components_, threshold_, '
         'n_features_in_ and every output bitwise equal; formed data never consults a callable preprocessor; a '
-        'raising preprocessor surfaces as PreprocessorError. Non-trivial = index array unsorted or with a repeat '
+        'raising preprocessor surfaces as PreprocessorError; tuple learners are then refitted / recalibrated on the '
+        'same two estimators through the SAME index buffer refilled in place with other tuples. Non-trivial = index array unsorted or with a repeat '
         'and (tuples) some tuple with two different indices; distinct by canonical case.')
 ASSUMPTIONS = ['outputs compared bitwise (identical arrays reach the numeric kernels)',
                'LFDA: ARPACK eigsh starts from a random vector, so its components_ are compared through M = L^T L, '
@@ -217,6 +218,43 @@ def check_c05(case, stats):
       call('C05/calibrate-formed/' + name, B.calibrate_threshold, pool[ti], yq, strategy=strat, **kw)
       if not same(A.threshold_, B.threshold_):
         raise Violation('C05/calibrate_threshold/%s' % tag, '%r vs %r' % (A.threshold_, B.threshold_))
+  # second round on the SAME estimators: the caller's index buffer refilled in place with other tuples of the
+  # same shape (a bootstrap loop that reuses its buffer) - every call, not only the first, must equal formed data
+  if kind in ('pairs', 'triplets', 'quads') and isinstance(idx_fit, np.ndarray) and len(tidx) >= 8:
+    # two well-formed training sets of one shape: the even and the odd rows of the drawn tuples
+    h = len(tidx) // 2
+    ev, od = np.asarray(tidx)[0:2 * h:2], np.asarray(tidx)[1:2 * h:2]
+    rest_ev = (np.asarray(data.ypairs)[0:2 * h:2],) if kind == 'pairs' else ()
+    rest_od = (np.asarray(data.ypairs)[1:2 * h:2],) if kind == 'pairs' else ()
+    if kind == 'pairs' and (len(set(rest_ev[0].tolist())) < 2 or len(set(rest_od[0].tolist())) < 2):
+      raise Discard('half of the pairs has one label only')
+    buf = cast(pos[ev], dt)
+    tidx2 = od
+    r1 = E.fit_call('C05/refit-indices', name, A, (buf,) + rest_ev, m['desc'], paramsA, expect=exp)
+    if isinstance(r1, Exception):
+      raise Discard('SDML RuntimeError (specified outcome)')
+    buf[...] = pos[od].astype(buf.dtype)
+    rA = E.fit_call('C05/refit-indices', name, A, (buf,) + rest_od, m['desc'], paramsA, expect=exp)
+    rB = E.fit_call('C05/refit-formed', name, B, (pool[pos[od]],) + rest_od, m['desc'], paramsB, expect=exp)
+    if isinstance(rA, Exception) or isinstance(rB, Exception):
+      if type(rA) is not type(rB):
+        raise Violation('C05/refit-outcome-differs/' + name, 'indices: %r formed: %r' % (rA, rB))
+      raise Discard('SDML RuntimeError (specified outcome)')
+    for attr in ('components_', 'threshold_', 'bounds_'):
+      if hasattr(A, attr) != hasattr(B, attr) or (hasattr(A, attr) and not same(getattr(A, attr), getattr(B, attr))):
+        raise Violation('C05/refit-same-buffer/%s/%s' % (attr, tag), 'indices+preprocessor: %r  formed: %r'
+                        % (getattr(A, attr, None), getattr(B, attr, None)))
+    if name in E.PAIRS:
+      # calibrate twice through one buffer holding different validation pairs
+      vbuf = np.ascontiguousarray(buf)
+      yv = np.where(np.arange(len(vbuf)) % 2 == 0, 1, -1)
+      for shift in (0, 1):
+        vbuf[...] = np.roll(pos[tidx2][: len(vbuf)], shift, axis=0).astype(vbuf.dtype)
+        call('C05/calibrate-indices/' + name, A.calibrate_threshold, vbuf, yv, strategy='accuracy')
+        call('C05/calibrate-formed/' + name, B.calibrate_threshold, pool[vbuf.astype(np.int64)], yv, strategy='accuracy')
+        if not same(A.threshold_, B.threshold_):
+          raise Violation('C05/calibrate-same-buffer/%s' % tag, '%r vs %r' % (A.threshold_, B.threshold_))
+    stats.classes['refit-through-refilled-buffer'] += 1
   # a raising preprocessor surfaces as PreprocessorError
   PE = mlsub('exceptions').PreprocessorError
   exc_type = {'IndexError': IndexError, 'KeyError': KeyError, 'RuntimeError': RuntimeError,
